@@ -138,12 +138,19 @@ func formatArrayTypeName(v string) string {
 func ExtractValue(v reflect.Value, extractor ValueExtractor) {
 	// follow pointers and interfaces down to the value; a nil pointer still tells its element
 	// type, which is walked with a zero value so that the types behind it are found as well
+	var nilTypes []reflect.Type
 	for v.Kind() == reflect.Ptr || v.Kind() == reflect.Interface {
 		if v.IsNil() {
-			if v.Kind() == reflect.Interface || v.Type().Elem() == v.Type() {
-				// nothing behind a nil interface, nor behind a pointer type that points to itself (type P *P)
+			if v.Kind() == reflect.Interface {
 				return
 			}
+			// nothing behind pointer types that lead back into themselves (type P *P; type A *B, type B *A)
+			for _, t := range nilTypes {
+				if t == v.Type() {
+					return
+				}
+			}
+			nilTypes = append(nilTypes, v.Type())
 			v = reflect.New(v.Type().Elem()).Elem()
 			continue
 		}
@@ -212,9 +219,19 @@ func FetchType(typ reflect.Type, typMap map[string]reflect.Type) {
 // fetchType walks typ; seen holds the named list, map and pointer types on the way (a named type can
 // contain itself: type Nest []Nest, type Tree map[string]Tree), struct types are cut off by typMap
 func fetchType(typ reflect.Type, typMap map[string]reflect.Type, seen map[reflect.Type]bool) {
-	typ = UnpackPtrType(typ)
+	for typ.Kind() == reflect.Ptr {
+		// a named pointer type is on the way like a named list type is (type P *[]P)
+		if typ.Name() != "" {
+			if _, ok := seen[typ]; ok {
+				return
+			}
+			seen[typ] = true
+		}
+		typ = typ.Elem()
+	}
 
-	if IsRawKind(typ.Kind()) {
+	// a timestamp is a value of the format: the types inside time.Time are none of the message's types
+	if IsRawKind(typ.Kind()) || typ == _dateType {
 		return
 	}
 
@@ -272,10 +289,17 @@ func RawValue(v reflect.Value) reflect.Value {
 
 //UnpackPtrType unpack pointer type to original type
 func UnpackPtrType(typ reflect.Type) reflect.Type {
+	// a chain of pointer types can lead back into itself through a named one only (type P *P; type A *B, type B *A):
+	// there is nothing behind such a chain
+	var named []reflect.Type
 	for typ.Kind() == reflect.Ptr {
-		if typ.Elem() == typ {
-			// type P *P points to itself: there is nothing behind it
-			return typ
+		if typ.Name() != "" {
+			for _, t := range named {
+				if t == typ {
+					return typ
+				}
+			}
+			named = append(named, typ)
 		}
 		typ = typ.Elem()
 	}
